@@ -89,9 +89,9 @@ TEXTS = {
     "C12": _t("Recording rules on eval_one (reset first, row 0, action before step, positions 1 and 4 of the step result, info key agreement with the "
               "env) and evaluate (fresh env per task, tuple order, stack+transpose, ordered pool API); RNG-ownership analysis across the task boundary: "
               "RNG-holding attributes are found by constructor, draws on them located, and any draw reachable from the worker through a bound method or "
-              "object shared by all tasks - or from a process-global RNG - is a violation; per-env child streams created in the factory are accepted.",
+              "object shared by all tasks - or from a process-global RNG - is a violation; per-env child streams created in the factory are accepted, and solver-owned RNG state only when the after_reset hook of the same object replaces it per task from the env's own factory-seeded stream (chain H1-H4, every link checked).",
               "DESIGN.md section 4, C12",
-              "numeric equality of the matrices with a replay; statistical independence of the hidden games. Open known finding: RandomSolver._generator shared across pool tasks.",
+              "numeric equality of the matrices with a replay; statistical independence of the hidden games.",
               "static analysis: positional dataflow, RNG-ownership (escape/sharing) analysis over bound methods and partials"),
     "C13": _t("Path rule: every gym.step(a) in a solver is undone by gym.unstep(a) with the same argument on every path (flow with helper summaries); "
               "read-only use of the env; returned action provably drawn from the mask-filtered list; choice rules (max unless worst then min, first match in "
